@@ -118,6 +118,17 @@ class Std:
             self.payloads[op['obj']] = dict(strong=[], weak=[], dropped=False)
             self.new_obj(op['obj'], op['obj'])
             H[op['as']] = ('rc', op['obj'])
+        elif k in ('new_from', 'new_from_box'):
+            self.payloads[op['obj']] = dict(strong=[], weak=[], dropped=False)
+            self.new_obj(op['obj'], op['obj'])
+            H[op['as']] = ('rc', op['obj'])
+        elif k in ('eq', 'ne', 'lt', 'le', 'gt', 'ge', 'cmp', 'partial_cmp'):
+            x = self.objs[self.h(op['a'])[1]]['pid']
+            y = self.objs[self.h(op['b'])[1]]['pid']
+            if k in ('cmp', 'partial_cmp'):
+                self.obs(op, 'Less' if x < y else ('Equal' if x == y else 'Greater'))
+            else:
+                self.obs(op, 'true' if {'eq': x == y, 'ne': x != y, 'lt': x < y, 'le': x <= y, 'gt': x > y, 'ge': x >= y}[k] else 'false')
         elif k == 'clone':
             _, i = self.h(op['h'])
             self.objs[i]['strong'] = s_add(self.objs[i]['strong'], 1)
